@@ -7,5 +7,5 @@ cd $D
 if ! patch -p1 -s < $1 >/dev/null 2>&1; then echo "PATCH DOES NOT APPLY"; exit 3; fi
 if ! go build ./... 2>/dev/null; then echo "DOES NOT COMPILE"; exit 4; fi
 for p in C01 C02 C03 C04 C05 C06 C07 C08 C09 C10 C11 C13 C14 C15 C16 C17 C18 C19 C20; do
-  /verif/bin/specvet -property $p -repo $D -no-evidence 2>&1 | grep -E '^(VIOLATED|UNDECIDED|CHECKER)' | sed "s/^/$p /" | cut -c1-330
+  ${SPECVET_BIN:-/verif/bin/specvet} -property $p -repo $D -no-evidence 2>&1 | grep -E '^(VIOLATED|UNDECIDED|CHECKER)' | sed "s/^/$p /" | cut -c1-330
 done | sort -u -k2,3
